@@ -88,6 +88,7 @@ def sevOf (r : Rec) : Nat := (r.getD 2 1) - 1
 
 /-- the sink body for a record, given the bodies per severity (translator output) -/
 def sinkProg (progs : List (List Instr)) (r : Rec) : List Instr :=
-  progs.getD (sevOf r) (progs.headD [])
+  progs.getD (sevOf r) (progs.headD [])    -- (codes beyond the six severities — the driver's "long info record" — fall
+                                            --  back on the first body; all six are proved to have the same shape)
 
 end NitroVerif.MT
